@@ -65,12 +65,14 @@ class ReportPriority(SCSICommand):
         #  get the data after the ppd_len, which does not count itself
         _data = data[4 : 4 + scsi_ba_to_int(data[:4])]
         _descriptors = []
-        while len(_data) >= 8:
+        # by position, see ReportLuns.unmarshall_datain
+        _pos = 0
+        while len(_data) - _pos >= 8:
             _r = {}
-            decode_bits(_data, cls._data_bits, _r)
-            _r["transport_id"] = _data[8 : 8 + _r["adlen"]]
+            decode_bits(_data[_pos : _pos + 8], cls._data_bits, _r)
+            _r["transport_id"] = _data[_pos + 8 : _pos + 8 + _r["adlen"]]
             _descriptors.append(_r)
-            _data = _data[_r["adlen"] + 8 :]
+            _pos += _r["adlen"] + 8
         result.update(
             {
                 "priority_descriptors": _descriptors,
